@@ -117,7 +117,7 @@ def handle (args : List String) : Option (String × String) := do
       match collectConst chain src with
       | some l => some (showRes (.items l), spec)
       | none => some ("panic", spec)
-    | _ => some (showRes (konstEval chain c src), spec)
+    | _ => some (showRes (konstEvalK chain c src), spec)   -- the literal loop nest
   | _ => none
 
 end Driver.C10
